@@ -10,6 +10,7 @@ import builtins
 import collections
 import concurrent.futures
 import cProfile
+import io
 import json
 import logging
 import os
@@ -18,6 +19,7 @@ import re
 import subprocess
 import sys
 import tempfile
+import tokenize
 from builtins import print as real_print
 from collections.abc import Iterable, Iterator, Mapping, Sequence
 from contextlib import contextmanager
@@ -258,10 +260,22 @@ class BaseNodeVisitor(ast.NodeVisitor):
 
     def get_unused_ignores(self) -> list[tuple[int, str]]:
         """Returns line numbers and lines that have unused ignore comments."""
+        try:
+            readline = io.StringIO(self.contents).readline
+            # the marker may also occur in a string literal, which is not a comment
+            in_comment = {
+                token.start[0] - 1
+                for token in tokenize.generate_tokens(readline)
+                if token.type == tokenize.COMMENT and IGNORE_COMMENT in token.string
+            }
+        except (tokenize.TokenError, SyntaxError):
+            in_comment = None
         return [
             (i, line)
             for i, line in enumerate(self._lines())
-            if IGNORE_COMMENT in line and i not in self.used_ignores
+            if IGNORE_COMMENT in line
+            and i not in self.used_ignores
+            and (in_comment is None or i in in_comment)
         ]
 
     def show_errors_for_unused_ignores(self, error_code: ErrorCodeInstance) -> None:
